@@ -293,6 +293,21 @@ fn phase1(
             }
         }
         if has(cfg, "C05") {
+            // every reached position is again a valid one: judged on the library's own successor
+            if !n1.is_sane() {
+                rep.violation("C05", "successor_not_sane", json!({"fen": fen, "move": [f, t, p], "after": pn.describe()}));
+            }
+            let kings_w = pn.sq.iter().filter(|c| **c == b'K').count();
+            let kings_b = pn.sq.iter().filter(|c| **c == b'k').count();
+            if kings_w != 1 || kings_b != 1 {
+                rep.violation("C05", "successor_king_count", json!({"fen": fen, "move": [f, t, p], "after": pn.describe()}));
+            }
+            if (0..8).any(|i| pn.sq[i] == b'P' || pn.sq[i] == b'p' || pn.sq[56 + i] == b'P' || pn.sq[56 + i] == b'p') {
+                rep.violation("C05", "successor_pawn_on_back_rank", json!({"fen": fen, "move": [f, t, p], "after": pn.describe()}));
+            }
+            if pn != ex || !ep_ok {
+                rep.violation("C05", "successor_outside_specified_state_space", json!({"fen": fen, "move": [f, t, p], "after": pn.describe()}));
+            }
             let mn = [n1.color_combined(Color::White).popcnt(), n1.color_combined(Color::Black).popcnt()];
             let pw = [
                 (n1.pieces(Piece::Pawn) & n1.color_combined(Color::White)).popcnt(),
